@@ -260,6 +260,29 @@ def r7_no_capacity_limit_on_scope_log(ctx: Ctx) -> None:
     scope_log_is_not_a_depth(ctx)
 
 
+def r8_argument_list_separators(ctx: Ctx) -> None:
+    """arguments of either kind (expression or code block) are separated by commas: in parse_expression_list_inner every way from an
+    appended item back to the top of the loop goes through the comma test, and the loop ends when there is no comma.  If the test is
+    reachable after one kind of item only, a code-block argument that is not the last one is a syntax error."""
+    pel = ctx.repo.func("a816.parse.parser_states", "parse_expression_list_inner")
+    loops = [n for n in walk_no_nested(pel.node) if isinstance(n, (ast.While,))]
+    if len(loops) != 1:
+        raise AnalysisError("parse_expression_list_inner: expected one loop")
+    lp = loops[0]
+    g = CFG(pel.node)
+    head = g.node_of(lp.test)
+    items = [g.node_containing(c) for c in calls_in(lp) if isinstance(c.func, ast.Attribute) and c.func.attr == "append"]
+    commas = [nid for nid, nd in g.nodes.items() if nd.kind == "test" and "COMMA" in unparse(nd.ast)]
+    if not items or not commas:
+        raise AnalysisError(f"parse_expression_list_inner: {len(items)} item appends / {len(commas)} comma tests; not modelled")
+    for it in items:
+        ctx.count("argument_kinds")
+        after = [m for m, l in g.succ[it] if l != "exc"]
+        skips = head in g.reachable(after, blocked=commas, labels_excluded=["exc"]) and head != it
+        ctx.check(not skips, f"parse_expression_list_inner:comma-after `{g.nodes[it].text()[:40]}`", "after this kind of argument the comma test decides whether another argument follows")
+    ctx.floor("argument_kinds", 1)
+
+
 def rb_binding_agreement(ctx: Ctx) -> None:
     from ..ownership import binding_agreement
 
@@ -280,4 +303,4 @@ def ru_names_bound(ctx: Ctx) -> None:
     names_rule(ctx)
 
 
-RULES = [r1_arguments_in_caller_scope, r2_positional_binding, r3_per_application_scope, r4_only_symbol_not_defined_defers, r5_failures_inside_expansions_surface, r6_enclosing_scopes_stay_reachable, r7_no_capacity_limit_on_scope_log, rb_binding_agreement, rm_no_process_lifetime_results, ru_names_bound]
+RULES = [r1_arguments_in_caller_scope, r2_positional_binding, r3_per_application_scope, r4_only_symbol_not_defined_defers, r5_failures_inside_expansions_surface, r6_enclosing_scopes_stay_reachable, r7_no_capacity_limit_on_scope_log, r8_argument_list_separators, rb_binding_agreement, rm_no_process_lifetime_results, ru_names_bound]
